@@ -146,6 +146,13 @@ def install(ex):
         b, off, ln, cp = args
         return SliceV(b.ptr, ex.add(b.off, off), ln, cp)
 
+    def vPoolCount(ex, st, args, ins):
+        return len(st.ghost.get("pools", ()))
+
+    def vReleased(ex, st, args, ins):
+        a = args[0]
+        return a.ptr is not None and a.ptr.obj in st.ghost.get("bs_released", ())
+
     for k, v in list(locals().items()):
         if k.startswith("v") and callable(v):
             I[k] = v
@@ -234,6 +241,19 @@ def install(ex):
 
     def mk_add(bits, signed):
         def f(ex, st, args, ins):
+            p = args[0]
+            sp = ex.sym_positions(st, p)
+            if sp:
+                pos, n = sp[0]
+
+                def mk(i):
+                    def g(s2):
+                        q = Ptr(p.obj, p.path[:pos] + (i,) + p.path[pos + 1:])
+                        v = ex.A.binop("+", ex.load(s2, q), args[1], bits, signed)
+                        ex.store(s2, q, v)
+                        return v
+                    return g
+                return ForkResult([(ex.A.cmp("==", p.path[pos], i), mk(i)) for i in range(n)], lazy=True)
             v = ex.A.binop("+", ex.load(st, args[0]), args[1], bits, signed)
             ex.store(st, args[0], v)
             return v
@@ -359,6 +379,8 @@ def install_contracts(ex, names):
 
     def bs_put_impl(ex, st, buf):
         if buf.ptr is not None:
+            if buf.ptr.obj in st.ghost.get("bs_released", ()):
+                raise GoPanic("byteslice.Put called twice on the same memory (double hand-back)")
             st.ghost["bs_released"] = st.ghost.get("bs_released", ()) + (buf.ptr.obj,)
         return None
 
@@ -400,6 +422,13 @@ def install_contracts(ex, names):
         st.ghost["rb_released"] = st.ghost.get("rb_released", ()) + (b.obj,)
         st.events.append("rbPool.Put")
         return None
+
+    if "rb_calibrate_havoc" in names:
+        def calib(ex, st, args, ins):
+            # calibrate(): float percentile + sort are not encoded; its only effect on the property is to set
+            # defaultSize/maxSize to some size class
+            return None
+        S["(*" + RB + "Pool).calibrate"] = calib
 
     if "ringbuffer" in names:
         S[RB + "Get"] = rb_get
